@@ -106,6 +106,7 @@ type Case struct {
 	Toks   []Tok    `json:"toks"`
 	Cache  int      `json:"cache"` // size of each LRU (0 = caches disabled)
 	Oracle string   `json:"oracle"`
+	Kinds  []string `json:"oracle_kinds,omitempty"` // every oracle clause that failed on this case
 	Sig    *Sig     `json:"sig,omitempty"`
 	Shrunk *Case    `json:"shrunk,omitempty"`
 }
@@ -662,6 +663,18 @@ func allValid(c *Case, t *Tok) bool {
 	return true
 }
 
+func dname(d string) string {
+	switch d {
+	case "0":
+		return "Deny"
+	case "1":
+		return "Allow"
+	case "2":
+		return "Default"
+	}
+	return d
+}
+
 func firstDiff(a, b string) int {
 	for i := 0; i < len(a) && i < len(b); i++ {
 		if a[i] != b[i] {
@@ -697,17 +710,30 @@ func run(c *Case) {
 	qs := queries(c.Names)
 	cache := newCaches(c.Cache)
 	c.Oracle, c.Sig = "", nil
+	// every clause that fails is recorded once (first occurrence); the case's verdict is the
+	// most property-level one (a wrong decision before a wrong internal state)
+	prio := map[string]int{"cache-dependence": 1, "cache-dependence-error": 2, "semantics": 3, "noncanonical-case-precedence": 4,
+		"order-dependence": 5, "order-dependence-error": 6, "enforce-dispatch": 7, "cached-policy-mutated": 8, "compile-error-on-valid-policies": 9}
+	c.Kinds = nil
 	fail := func(kind string, ti int, i int, got, want string, nc bool) {
-		if c.Oracle != "" {
+		for _, k := range c.Kinds {
+			if k == kind {
+				return
+			}
+		}
+		c.Kinds = append(c.Kinds, kind)
+		if c.Sig != nil && prio[c.Sig.Kind] <= prio[kind] {
 			return
 		}
 		s := &Sig{Kind: kind, Token: ti, NonCanon: nc}
 		if i >= 0 {
 			s.Method, s.Name = describe(qs, i)
 			s.Got, s.Want = string(got[i]), string(want[i])
+			c.Oracle = fmt.Sprintf("%s: token %d (policies %v) %s(%q) = %s, expected %s", kind, ti, c.Toks[ti].Idx, s.Method, s.Name, dname(s.Got), dname(s.Want))
+		} else {
+			c.Oracle = fmt.Sprintf("%s: after resolving token %d (policies %v)", kind, ti, c.Toks[ti].Idx)
 		}
 		c.Sig = s
-		c.Oracle = fmt.Sprintf("%s: token %d %s(%q) got %s want %s", kind, ti, s.Method, s.Name, s.Got, s.Want)
 	}
 	for i := range c.Pool {
 		e := &c.Pool[i]
@@ -1000,6 +1026,23 @@ func shrink(c *Case) *Case {
 				}
 			}
 		}
+	}
+	// drop pool entries no token uses
+	d := cloneCase(cur)
+	used := map[int]int{}
+	var pool []Entry
+	for ti := range d.Toks {
+		for k, i := range d.Toks[ti].Idx {
+			if _, ok := used[i]; !ok {
+				used[i] = len(pool)
+				pool = append(pool, d.Pool[i])
+			}
+			d.Toks[ti].Idx[k] = used[i]
+		}
+	}
+	d.Pool = pool
+	if still(d) {
+		return d
 	}
 	still(cur)
 	return cur
